@@ -29,10 +29,25 @@ Definition entropy (c : R) (r : list R) : R := c * plogp (nzabs r).
 Definition entropy_grad (c : R) (r : list R) : list R :=
   map (fun v => c * (v / Rabs v * ((ln (Rabs v / vsum (nzabs r)) - plogp (nzabs r)) / vsum (nzabs r)))) r.
 
+(* second partials of the entropy at flows without zero entries: with a = |r|, S = sum a, T = sum a ln a,
+   c * sgn_j sgn_k * ( [j = k] / (a_j S) - (ln a_j + ln a_k + 1) / S^2 + 2 T / S^3 ) *)
+Definition entropy_hess (c : R) (r : list R) : list (list R) :=
+  let S := vsum (nzabs r) in let T := vsum (map (fun v => v * ln v) (nzabs r)) in
+  map (fun '(j, vj) => map (fun '(k, vk) =>
+        c * (vj / Rabs vj * (vk / Rabs vk) *
+             ((if Nat.eqb j k then 1 / (Rabs vj * S) else 0) - (ln (Rabs vj) + ln (Rabs vk) + 1) / (S * S) + 2 * T / (S * S * S))))
+      (idx r)) (idx r).
+
 (* ---- CobbDouglas: c * (r ** (a / a.sum())).prod() ---- *)
 Definition rprod (l : list R) : R := fold_right Rmult 1 l.
 Definition cobb (c : R) (a r : list R) : R := c * rprod (map2 (fun v e => Rpw v (e / vsum a)) r a).
 Definition cobb_grad (c : R) (a r : list R) : list R := map2 (fun v e => e / vsum a * cobb c a r / v) r a.
+(* with e = a / a.sum(), f = the cost:  e_j e_k f / (r_j r_k) - [j = k] e_j f / r_j^2 *)
+Definition cobb_hess (c : R) (a r : list R) : list (list R) :=
+  map (fun '(j, vj) => map (fun '(k, vk) =>
+        nth j a 0 / vsum a * (nth k a 0 / vsum a) * cobb c a r / (vj * vk)
+        - (if Nat.eqb j k then nth j a 0 / vsum a * cobb c a r / (vj * vj) else 0))
+      (idx r)) (idx r).
 
 (* ---- as the preference function f of an ADevice: cost f(s) + (s*p).sum(), marginal cost f.deriv(s) + p ---- *)
 Definition adev_cost (F : list R -> R) (s p : list R) : R := F s + dot s p.
